@@ -311,6 +311,65 @@ def seeded(rng, n_sub, n_disp):
     return cases
 
 
+def deep_cases(rng):
+    """deep structures the enumeration (<= 3 classes, <= 2 interfaces) cannot reach: straight interface
+    chains of depth 3..6, class chains of depth 3..6, an interface chain hanging under a class chain,
+    chain + diamond mixes, with the implementing class at every level of the class chain.  Every
+    (object, type) pair through the five subtype forms."""
+    cases = []
+
+    def mk(classes, ifaces, gen):
+        h = {"classes": [{"name": n, "extends": e, "impls": list(i), "methods": []} for n, e, i in classes],
+             "ifaces": [{"name": n, "extends": list(e), "methods": []} for n, e in ifaces]}
+        cases.append({"h": h, "probes": subtype_probes(h), "script": "s", "gen": gen})
+
+    for d in range(3, 7):
+        chain = [("I0", [])] + [("I%d" % k, ["I%d" % (k - 1)]) for k in range(1, d + 1)]
+        # the class implementing the most derived interface, and a subclass of it
+        mk([("C1", None, ["I%d" % d]), ("C2", "C1", []), ("C3", None, [])], chain, "deep-iface-chain")
+        # implemented half-way up, and at two levels
+        mk([("C1", None, ["I%d" % (d // 2)]), ("C2", "C1", ["I%d" % d])], chain, "deep-iface-chain")
+        # chain in declaration order reversed (children declared before parents)
+        mk([("C1", None, ["I%d" % d])], list(reversed(chain)), "deep-iface-chain")
+    for d in range(3, 7):
+        cls = [("C1", None, ["I1"])] + [("C%d" % k, "C%d" % (k - 1), []) for k in range(2, d + 1)]
+        mk(cls, [("I0", []), ("I1", ["I0"])], "deep-class-chain")
+        # interface chain of the same depth implemented at the root of the class chain
+        chain = [("I0", [])] + [("I%d" % k, ["I%d" % (k - 1)]) for k in range(1, d + 1)]
+        mk([("C1", None, ["I%d" % d])] + [("C%d" % k, "C%d" % (k - 1), []) for k in range(2, d + 1)], chain, "deep-class+iface-chain")
+        # implemented in the middle of the class chain
+        mid = max(2, d // 2)
+        mk([("C%d" % k, ("C%d" % (k - 1)) if k > 1 else None, (["I%d" % d] if k == mid else [])) for k in range(1, d + 1)],
+           chain, "deep-class+iface-chain")
+    for tail in range(1, 4):
+        # diamond I1a,I1b over I0, joined by I2, then a chain of `tail` more interfaces; and a chain ABOVE a diamond
+        dia = [("I0", []), ("I1a", ["I0"]), ("I1b", ["I0"]), ("I2", ["I1a", "I1b"])]
+        ch = [("J%d" % k, [("J%d" % (k - 1)) if k > 1 else "I2"]) for k in range(1, tail + 1)]
+        mk([("C1", None, ["J%d" % tail]), ("C2", "C1", [])], dia + ch, "chain+diamond")
+        top = [("T0", [])] + [("T%d" % k, ["T%d" % (k - 1)]) for k in range(1, tail + 1)]
+        dia2 = [("D1a", ["T%d" % tail]), ("D1b", ["T%d" % tail]), ("D2", ["D1a", "D1b"]), ("D3", ["D2"])]
+        mk([("C1", None, ["D3"]), ("C2", "C1", [])], top + dia2, "chain+diamond")
+    # seeded chain-biased hierarchies: each interface extends its predecessor with high probability
+    for _ in range(60):
+        m = rng.randint(4, 7)
+        ifs = []
+        for k in range(m):
+            ext = []
+            if k > 0 and rng.random() < 0.85:
+                ext.append("I%d" % (k - 1))
+            if k > 1 and rng.random() < 0.25:
+                ext.append("I%d" % rng.randint(0, k - 2))
+            ifs.append(("I%d" % k, ext))
+        n = rng.randint(2, 5)
+        cl = []
+        for k in range(n):
+            par = ("C%d" % k) if (k > 0 and rng.random() < 0.85) else None
+            impls = [rng.choice(ifs)[0]] if rng.random() < 0.6 else []
+            cl.append(("C%d" % (k + 1), par, impls))
+        mk(cl, ifs, "seeded-deep")
+    return cases
+
+
 def run_impl(binary, srcs):
     inp = "\n".join(json.dumps({"src": s}) for s in srcs) + "\n"
     p = subprocess.run([binary], input=inp, stdout=subprocess.PIPE, stderr=subprocess.PIPE, text=True, timeout=900)
@@ -342,7 +401,7 @@ def main(ck):
             i["methods"] = [tuple(x) for x in i["methods"]]
         cases = [c]
     else:
-        cases = enum_subtype() + enum_dispatch()
+        cases = enum_subtype() + enum_dispatch() + deep_cases(rng)
         if ck.tier == "quick":
             cases += seeded(rng, 250, 350)
         else:
@@ -407,7 +466,7 @@ def main(ck):
     ck.samples = [{"h": cases[300]["h"], "probes": cases[300]["probes"][:4]}, {"h": cases[-1]["h"], "probes": cases[-1]["probes"][:6]}] if len(cases) > 301 else []
     ck.cov["probe_kind_distribution"] = dist
     ck.cov["generators"] = {g: sum(1 for c in cases if c.get("gen") == g) for g in sorted(set(c.get("gen") for c in cases))}
-    ck.cov["classes_per_hierarchy"] = {str(k): sum(1 for c in cases if len(c["h"]["classes"]) == k) for k in range(1, 6)}
+    ck.cov["classes_per_hierarchy"] = {str(k): sum(1 for c in cases if len(c["h"]["classes"]) == k) for k in range(1, 8)}
     ck.cov["interfaces_per_hierarchy"] = {str(k): sum(1 for c in cases if len(c["h"]["ifaces"]) == k) for k in range(0, 8)}
     nprobes = sum(len(c["probes"]) for c in cases)
     ck.finish(level="proof", evaluations=nprobes, distinct_nontrivial=nontriv,
@@ -415,6 +474,8 @@ def main(ck):
                    "implements relation, each (object, type) pair through instanceof / $this instanceof / typed parameter / typed parameter "
                    "given $this / catch; dispatch: every forest of 1-3 classes x every choice of the classes declaring f and s, probed by "
                    "->f, ->s, self::s, static::s, parent::f, parent::s and like against every class and a one-method interface; seeded "
-                   "hierarchies with 2-5 classes, 0-4 interfaces with multiple extends, random overrides, arities and duck interfaces; "
+                   "hierarchies with 2-5 classes, 0-4 interfaces with multiple extends, random overrides, arities and duck interfaces; deep "
+                   "structures: straight interface chains and class chains of depth 3-6, interface chain under a class chain, chain+diamond "
+                   "mixes, 60 seeded chain-biased hierarchies with 4-7 interfaces; "
                    "evaluations = probes; non-trivial = distinct hierarchy with at least one extends/implements edge",
               traces=sum(len(cases[i]["probes"]) for i in idx))
